@@ -197,3 +197,18 @@ Lemma nan_threshold :
   is_nan (snd (calc (mk_wcfg nan 10 3) winit t_start)) = true /\
   admitted_count (wrun (mk_wcfg nan 10 3) winit (repeat (t_start, 1) 30)) = 30.
 Proof. vm_compute. repeat split; reflexivity. Qed.
+
+(* the bucket never holds more than maxToken: the refill is capped and the consumption is not negative *)
+Lemma sync_stored_le_max c st now q :
+  0 <= w_max c -> stored st <= w_max c -> 0 <= consumed q ->
+  in_i64 (cool_down c st (now - now mod 1000) q - consumed q) ->
+  stored (sync_token c st now q) <= w_max c.
+Proof.
+  intros Hm Hs Hq Hi. unfold sync_token.
+  destruct (now - now mod 1000 <=? last_filled st); [exact Hs|]. cbn [stored].
+  pose proof (cool_down_le_max c st (now - now mod 1000) q) as Hc. unfold consumed in *.
+  replace (cool_down c st (now - now mod 1000) q + go_i64_of_f (- q)%float)
+    with (cool_down c st (now - now mod 1000) q - - go_i64_of_f (- q)%float) by lia.
+  rewrite (i64_id _ Hi).
+  match goal with |- (if ?a <? 0 then _ else _) <= _ => destruct (a <? 0) eqn:E end; lia.
+Qed.
